@@ -177,6 +177,105 @@ theorem reducedDendro_valid {D : Dendro α} {st : Dict (List Nat)} {srt : Bool} 
       cases hred
       exact ⟨st'.rows, rfl, hvalid, hheights, hsum⟩
 
+/-! ### the functions return -/
+
+/-- the merge loop fails only on a row whose two children coincide -/
+theorem mergeLoop_returns (n : Nat) (ok : Row α → List Nat → List Nat → Bool) :
+    ∀ (rows : List (Row α)) (t : Nat) (st : Dict (List Nat)), (∀ r ∈ rows, r.i ≠ r.j) →
+      ∃ st', mergeLoop n ok t rows st = .ok st' := by
+  intro rows
+  induction rows with
+  | nil => intro t st _; exact ⟨st, rfl⟩
+  | cons r rs ih =>
+    intro t st hne
+    have hr := hne r List.mem_cons_self
+    have hrs : ∀ r' ∈ rs, r'.i ≠ r'.j := fun r' h' => hne r' (List.mem_cons_of_mem _ h')
+    unfold mergeLoop
+    cases st.get? r.i with
+    | none => exact ih _ _ hrs
+    | some ci =>
+      cases st.get? r.j with
+      | none => exact ih _ _ hrs
+      | some cj =>
+        simp only
+        by_cases hok : ok r ci cj = true
+        · rw [if_pos hok, if_neg hr]; exact ih _ _ hrs
+        · rw [if_neg hok]; exact ih _ _ hrs
+
+theorem valid_rows_ne {n : Nat} {D : Dendro α} (hv : ValidDendro n D = true) : ∀ r ∈ D, r.i ≠ r.j := by
+  intro r hr
+  have hs := static_of_valid (w := List.replicate n 1) hv
+  obtain ⟨t, ht, hte⟩ := List.getElem_of_mem hr
+  exact (hs.bound t r (by rw [List.getElem?_eq_getElem ht, hte])).2.2
+
+/-- `get_labels` returns on a valid dendrogram and the cluster dict of a merge loop (with or without the reduced
+    dendrogram) -/
+theorem getLabels_returns {D : Dendro α} {st : Dict (List Nat)} (srt retD : Bool) {argsort : List Nat → List Nat}
+    (hs : SortsDesc argsort) (hv : ValidDendro (D.length + 1) D = true) (hinv : CInv (D.length + 1) D st)
+    (hne : ∀ p ∈ st, p.2 ≠ []) : ∃ out, getLabels D st srt retD argsort = .ok out := by
+  have hperm := orderedClusters_perm hs st srt
+  have hflat : (orderedClusters st srt argsort).flatten.Perm (List.range (D.length + 1)) :=
+    (List.Perm.flatten hperm).trans hinv.perm
+  obtain ⟨l', h1, h2, _, _⟩ := assignAll_spec (orderedClusters st srt argsort) 0
+    (List.replicate (D.length + 1) 0)
+    (by
+      intro c hc v hv'
+      have : v ∈ (orderedClusters st srt argsort).flatten := List.mem_flatten.mpr ⟨c, hc, hv'⟩
+      simpa using hflat.mem_iff.mp this)
+    (hflat.nodup_iff.mpr List.nodup_range)
+  have hfalse : getLabels D st srt false argsort = .ok { labels := l', dendro := none } := by
+    unfold getLabels
+    simp only [bind, Except.bind, h1, Bool.false_eq_true, if_false, pure, Except.pure]
+  cases retD with
+  | false => exact ⟨_, hfalse⟩
+  | true =>
+    obtain ⟨hsl, _⟩ := getLabels_subtrees hs hinv hne hfalse
+    simp only at hsl
+    have hlab : ∀ u, u < D.length + 1 → l'.getD u 0 < (orderedClusters st srt argsort).length :=
+      fun u hu => (hsl.label_class hu).1
+    have hcl : ∀ c, c < (orderedClusters st srt argsort).length →
+        ∃ cc, (orderedClusters st srt argsort)[c]? = some cc ∧ cc ∈ orderedClusters st srt argsort := by
+      intro c hc
+      exact ⟨_, List.getElem?_eq_getElem hc, List.getElem_mem hc⟩
+    have hnonempty : ∀ c, c < (orderedClusters st srt argsort).length →
+        ∃ u, u < D.length + 1 ∧ l'.getD u 0 = c := by
+      intro c hc
+      obtain ⟨cc, hcc, hmem⟩ := hcl c hc
+      obtain ⟨u, hu⟩ := List.exists_mem_of_ne_nil _ (hsl.subtree cc hmem).1
+      have : u ∈ (orderedClusters st srt argsort).flatten := List.mem_flatten.mpr ⟨cc, hmem, hu⟩
+      have hun : u < D.length + 1 := by simpa using hsl.partition.mem_iff.mp this
+      exact ⟨u, hun, hsl.label c cc hcc u hu⟩
+    have hcls : ∀ c, c < (orderedClusters st srt argsort).length → ∃ ρ, ρ < D.length + 1 + D.length ∧
+        ∀ u, u < D.length + 1 → (l'.getD u 0 = c ↔ u ∈ leaves (D.length + 1) D ρ) := by
+      intro c hc
+      obtain ⟨cc, hcc, hmem⟩ := hcl c hc
+      obtain ⟨_, x, hx, hxe⟩ := hsl.subtree cc hmem
+      refine ⟨x, hx, ?_⟩
+      intro u hu
+      rw [← hxe]
+      exact (hsl.label_class hu).2 c cc hcc
+    have hR0 := rinv_init (α := α) (n := D.length + 1) (lab := fun u => l'.getD u 0) rfl hlab hnonempty
+    obtain ⟨st', hrun, _, _⟩ := reduce_final (List.length_map _) D hv hcls hR0
+    have hlen : l'.length = D.length + 1 := by simpa using h2
+    refine ⟨{ labels := l', dendro := some st'.rows }, ?_⟩
+    unfold getLabels
+    simp only [bind, Except.bind, h1, if_true, hlen, hrun, pure, Except.pure]
+
+/-- **cut_balanced returns** for every valid dendrogram over `n` leaves and `2 ≤ max_cluster_size ≤ n`, with or
+    without the reduced dendrogram -/
+theorem cutBalanced_returns {D : Dendro α} {m : Nat} (srt retD : Bool) {argsort : List Nat → List Nat}
+    (hs : SortsDesc argsort) (hv : ValidDendro (D.length + 1) D = true) (hm1 : 2 ≤ m) (hm2 : m ≤ D.length + 1) :
+    ∃ out, cutBalanced D m srt retD argsort = .ok out := by
+  obtain ⟨st, hst⟩ := mergeLoop_returns (D.length + 1) (fun _ ci cj => decide (ci.length + cj.length ≤ m)) D 0
+    (initCluster (D.length + 1)) (valid_rows_ne hv)
+  obtain ⟨hinv, hne⟩ := mergeLoop_final hst
+  obtain ⟨out, hout⟩ := getLabels_returns srt retD hs hv hinv hne
+  refine ⟨out, ?_⟩
+  unfold cutBalanced
+  have e : (decide (m < 2) || decide (m > D.length + 1)) = false := by
+    simp only [Bool.or_eq_false_iff, decide_eq_false_iff_not]; omega
+  simp only [bind, Except.bind, e, Bool.false_eq_true, if_false, hst, hout]
+
 /-! ### cut_balanced -/
 
 theorem cutBalanced_unfold {D : Dendro α} {m : Nat} {srt retD : Bool} {argsort : List Nat → List Nat}
@@ -590,20 +689,36 @@ theorem cutStraight_valid_input {D0 : Dendro α} {nc : Option Nat} {thr : Option
       out.labels.length = D0.length + 1 ∧
       (∀ p c, cl[p]? = some c → ∀ v ∈ c, out.labels.getD v 0 = p) ∧
       (srt = true → cl.Pairwise (fun a b => b.length ≤ a.length)) ∧
-      (thr = none → DistinctHeights D0 = true → cl.length = nc.getD 2) := by
+      (thr = none → DistinctHeights D0 = true → cl.length = nc.getD 2) ∧
+      (∀ t r c, D0[t]? = some r → thr = some c → r.h < c →
+        ∀ v ∈ leaves (D0.length + 1) D0 (D0.length + 1 + t),
+        ∀ w ∈ leaves (D0.length + 1) D0 (D0.length + 1 + t), out.labels.getD v 0 = out.labels.getD w 0) := by
   obtain ⟨D, hD, hex⟩ := cutStraight_exact hs h
   rcases hD with e | e
   · subst e
-    obtain ⟨cl, hsub, _, hcount⟩ := hex hv hm
-    exact ⟨cl, hsub.partition, hsub.subtree, hsub.length, hsub.label, hsub.sorted, hcount⟩
+    obtain ⟨cl, hsub, hbelow, hcount⟩ := hex hv hm
+    exact ⟨cl, hsub.partition, hsub.subtree, hsub.length, hsub.label, hsub.sorted, hcount, hbelow⟩
   · -- the dendrogram that is cut is the reordering of the given one
     obtain ⟨D', hD', hvD', hsD', hleaves, hrows⟩ := reorder_valid_core hv hm
     rw [e] at hD'
     cases hD'
     have hlenD : D.length = D0.length := reorderDendrogram_length e
     have hmD := monoPaths_of_sorted hvD' hsD'
-    obtain ⟨cl, hsub, _, hcount⟩ := hex hvD' hmD
-    refine ⟨cl, hsub.partition, ?_, hsub.length, hsub.label, hsub.sorted, ?_⟩
+    obtain ⟨cl, hsub, hbelow, hcount⟩ := hex hvD' hmD
+    refine ⟨cl, hsub.partition, ?_, hsub.length, hsub.label, hsub.sorted, ?_, ?_⟩
+    rotate_left 2
+    · -- the threshold clause, through the renaming: row `t` of the given dendrogram is row `posOf … t` of `D`
+      intro t r c ht hthr hlt v hv' w hw
+      obtain ⟨r', hr', hh, _⟩ := hrows t r ht
+      have htl := (List.getElem?_eq_some_iff.mp ht).1
+      have hl := hleaves (D0.length + 1 + t) (by omega)
+      have e1 : indexNewOf D0 (D0.length + 1 + t) = D0.length + 1 + posOf (lexsortIdx D0) t := by
+        unfold indexNewOf
+        have : ¬ (D0.length + 1 + t < D0.length + 1) := by omega
+        simp only [this, if_false, Nat.add_sub_cancel_left]
+      rw [e1] at hl
+      rw [← hl] at hv' hw
+      exact hbelow (posOf (lexsortIdx D0) t) r' c hr' hthr (by rw [hh]; exact hlt) v hv' w hw
     · intro c hc
       obtain ⟨hne, x, hx, rfl⟩ := hsub.subtree c hc
       refine ⟨hne, ?_⟩
@@ -706,11 +821,83 @@ example (out : CutOut Ht)
     (h : cutStraight (α := Ht) [⟨0, 1, .fin 1, 2⟩, ⟨2, 3, .fin 2, 2⟩, ⟨4, 5, .inf, 4⟩] (some 2) none true true
       argsortDesc = .ok out) :
     ∃ cl : List (List Nat), cl.flatten.Perm (List.range 4) ∧ out.labels.length = 4 ∧ cl.length = 2 := by
-  obtain ⟨cl, h1, _, h3, _, _, h6⟩ := cutStraight_valid_input (α := Ht) argsortDesc_sortsDesc (by decide) (by decide) h
+  obtain ⟨cl, h1, _, h3, _, _, h6, _⟩ := cutStraight_valid_input (α := Ht) argsortDesc_sortsDesc (by decide) (by decide) h
   exact ⟨cl, h1, h3, h6 rfl (by decide)⟩
 
 example : (cutStraight (α := Ht) [⟨0, 1, .fin 1, 2⟩, ⟨2, 3, .fin 2, 2⟩, ⟨4, 5, .inf, 4⟩] (some 2) none true true
       argsortDesc).toOption.map (·.labels) = some [0, 0, 1, 1] := by decide
+
+/-- **cut_straight returns** for every valid dendrogram over `n` leaves when `n_clusters` is given in `1 … n`, or
+    omitted with a threshold, or omitted altogether with `n ≥ 2` (the default 2 is not checked against `n`: on the
+    dendrogram of a single leaf `cut_straight(d)` is an IndexError), and — when the reduced dendrogram is asked
+    for — heights never decrease towards the root (necessary: `cutStraight_inversion_counterexample`). -/
+theorem cutStraight_returns {D0 : Dendro α} (nc : Option Nat) (thr : Option α) (srt retD : Bool)
+    {argsort : List Nat → List Nat} (hs : SortsDesc argsort) (hv : ValidDendro (D0.length + 1) D0 = true)
+    (hk : match nc with
+      | some k => 1 ≤ k ∧ k ≤ D0.length + 1
+      | none => thr.isSome = true ∨ 2 ≤ D0.length + 1)
+    (hm : retD = false ∨ MonoPaths (D0.length + 1) D0 = true) :
+    ∃ out, cutStraight D0 nc thr srt retD argsort = .ok out := by
+  -- the dendrogram that is cut
+  obtain ⟨D, hD, hvD, hlen⟩ : ∃ D, cutInput D0 retD = .ok D ∧ ValidDendro (D0.length + 1) D = true ∧
+      D.length = D0.length := by
+    unfold cutInput
+    by_cases hc : (retD && !heightsSorted D0) = true
+    · rw [if_pos hc]
+      have hret : retD = true := by
+        cases retD with
+        | true => rfl
+        | false => simp at hc
+      rcases hm with e | e
+      · rw [e] at hret; cases hret
+      · obtain ⟨D', hD', hvD', _⟩ := reorder_valid_core hv e
+        exact ⟨D', hD', hvD', reorderDendrogram_length hD'⟩
+    · rw [if_neg hc]; exact ⟨D0, rfl, hv, rfl⟩
+  -- the number of clusters
+  obtain ⟨k, hke, hk1, hk2⟩ : ∃ k, effectiveK (D0.length + 1) nc thr = .ok k ∧ k ≤ D0.length + 1 ∧
+      (1 < k → 2 ≤ D0.length + 1) := by
+    unfold effectiveK
+    cases nc with
+    | some c =>
+      simp only at hk
+      refine ⟨c, ?_, hk.2, fun h => by omega⟩
+      unfold checkNClusters
+      have e1 : ¬ c > D0.length + 1 := by omega
+      have e2 : ¬ c < 1 := by omega
+      simp only [e1, e2, if_false, bind, Except.bind, pure, Except.pure]
+    | none =>
+      simp only at hk
+      cases hthr : thr.isNone with
+      | true =>
+        have : thr.isSome = false := by cases thr <;> simp_all
+        rcases hk with e | e
+        · rw [this] at e; cases e
+        · exact ⟨2, by simp [pure, Except.pure], e, fun _ => e⟩
+      | false => exact ⟨D0.length + 1, by simp [pure, Except.pure], Nat.le_refl _, fun h => by omega⟩
+  -- the cut height
+  obtain ⟨cut, hcut⟩ : ∃ cut, cutHeight D (D0.length + 1) k thr = .ok cut := by
+    unfold cutHeight
+    by_cases hone : k > 1
+    · rw [if_pos hone]
+      have hl : (sortH (D.map (·.h))).length = D0.length := by
+        rw [(sortH_perm _).length_eq, List.length_map, hlen]
+      have hidx : D0.length + 1 - k < (sortH (D.map (·.h))).length := by
+        have := hk2 hone; omega
+      rw [List.getElem?_eq_getElem hidx]
+      cases thr with
+      | none => exact ⟨_, rfl⟩
+      | some t => exact ⟨_, rfl⟩
+    · rw [if_neg hone]; exact ⟨none, rfl⟩
+  -- the loop and the labels
+  have hvD' : ValidDendro (D.length + 1) D = true := by rw [hlen]; exact hvD
+  obtain ⟨st, hst⟩ := mergeLoop_returns (D.length + 1) (fun r _ _ => belowCut cut r) D 0
+    (initCluster (D.length + 1)) (valid_rows_ne hvD')
+  obtain ⟨hinv, hne⟩ := mergeLoop_final hst
+  obtain ⟨out, hout⟩ := getLabels_returns srt retD hs hvD' hinv hne
+  refine ⟨out, ?_⟩
+  unfold cutStraight
+  rw [hlen] at hst
+  simp only [bind, Except.bind, hD, hke, hcut, hst, hout]
 
 /-- **cut_balanced with `return_dendrogram=True`** on a valid dendrogram: same statement. -/
 theorem cutBalanced_dendro_valid {D : Dendro α} {m : Nat} {srt : Bool} {argsort : List Nat → List Nat}
